@@ -331,7 +331,7 @@ theorem step_ledger (h1 : inactiveSettleShapeOk = true) (h2 : settleShapeOk = tr
       · exact addDeposit_ledger h hs
     · exact h
   | cancel pid who =>
-    simp only [step, Model.C15.ofExcept]
+    simp only [step, Model.C15.ofExcept, cancelRun_eq]
     split
     · rename_i s' hs; exact cancel_ledger h hs
     · exact h
